@@ -264,7 +264,6 @@ pub fn inflate_raw(src: &[u8], limit: usize) -> Result<(Vec<u8>, usize), String>
     Ok((out, s.pos))
 }
 
-#[allow(dead_code)]
 pub struct Member {
     pub offset: usize,
     pub size: usize,
